@@ -193,7 +193,7 @@ Proof.
   intros Hs. unfold norm, norm_items.
   destruct (to_items [] ts) as [its tail] eqn:Et.
   destruct (run c st0 [] (map (restyle_item c) its)) as [out tl1] eqn:Er.
-  destruct (split_lf0 (tl1 ++ map (restyle c) tail)) as [tr rest].
+  destruct (keep_tail out (tl1 ++ map (restyle c) tail)) as [tr rest].
   apply run_rewrites in Er; [|apply ret_ok_st0].
   rewrite item_toks_restyle in Er.
   apply to_items_significant in Et. rewrite <- Et.
